@@ -1,10 +1,11 @@
 """C20 — a stored remote handle has a stable, type-independent encoding."""
 import json
 
-from .. import common as c, corpus
+from .. import common as c, corpus, rs2lean
 
 THEOREMS = [("Sylvia.Thm.C20", "C20." + t) for t in
-            ["remote_encode", "remote_encode_independent", "remote_roundtrip", "remote_cross_type", "remote_schema_name"]]
+            ["remote_encode", "remote_encode_independent", "remote_roundtrip", "remote_cross_type", "remote_schema_name"]] + \
+           [("Sylvia.Thm.HandlesFn", "HandlesFn." + t) for t in ["remote_shape", "schema_name_const", "json_schema_impl_fns", "new_borrowed_same"]]
 TYPES = ["concrete contract", "generic contract <u64>", "generic contract <Vec<String>>", "dyn Interface<Error=.., CountT=u32>", "str (unsized)", "()"]
 
 
@@ -13,6 +14,12 @@ def run(ctx):
                                "L3 rt harness (real sylvia::types::Remote, serde, schemars) + svmodel driver",
                                "JSON string escaping is implemented in the model's printer and validated here, not proved"]
     ctx.assumptions += ["the six type parameters of the harness stand for 'all T' on the implementation side; the theorem quantifies over every index type"]
+    # function translator: Remote of sylvia/src/types.rs -> Extracted/HandleFns.lean: constructors, as_ref, the hand-written
+    # JsonSchema::schema_name, and the attribute lists of the struct that decide what serde's derive encodes
+    handle_problems = rs2lean.regenerate("handles")
+    ctx.cov["function_translator_handles"] = {"source": "sylvia/src/types.rs (Remote)", "problems": handle_problems}
+    if handle_problems:
+        ctx.obligation_failed("function-translator(handles)", "; ".join(handle_problems)[:1500])
     c.prove(ctx, ["Sylvia.Thm.C20"], THEOREMS)
     rng = ctx.rng
     try:
